@@ -4,7 +4,9 @@ import vlib
 LEVEL = "model_checking"
 TRACE_MODULE = "Trace_C04"
 
-BUILDS = [("c04", (), "xyzw"), ("c04_wxyz", ("-DGLM_FORCE_QUAT_DATA_WXYZ",), "wxyz")]
+BUILDS = [("c04", (), "xyzw"), ("c04_wxyz", ("-DGLM_FORCE_QUAT_DATA_WXYZ",), "wxyz"),
+          # the same program on the aligned qualifiers of an intrinsic build, WXYZ storage: type_quat_simd.inl and the aligned kernels
+          ("c04_aligned_wxyz", ("-DC04_ALIGNED", "-DGLM_FORCE_INTRINSICS", "-DGLM_FORCE_ALIGNED_GENTYPES", "-DGLM_FORCE_QUAT_DATA_WXYZ", "-msse2"), "aligned-wxyz")]
 
 
 def run(ctx):
@@ -17,7 +19,7 @@ def run(ctx):
                 "12 three-angle Euler products (rotations), qua(euler) = Rz Ry Rx and pitch/yaw/roll read back; the dyadic evaluators of the trace "
                 "specification agree with the rational definitions on all of these states")
     specs = [dict(name=n, src="c04.cpp", flags=fl) for n, fl, _ in BUILDS]
-    bins = vlib.pmap(lambda s: ctx.build(s["name"], s["src"], flags=s["flags"]), specs, jobs=2)
+    bins = vlib.pmap(lambda s: ctx.build(s["name"], s["src"], flags=s["flags"]), specs, jobs=3)
     for (name, flags, label), b in zip(BUILDS, bins):
         if not b:
             continue
@@ -25,6 +27,10 @@ def run(ctx):
         ok, out = ctx.run_harness(b, [tr, ctx.tier], tr)
         if ok:
             ctx.validate(TRACE_MODULE, tr, label=label, min_lines=500)
+    # stage X04 (notes/X04-notes.md): gtx/matrix_interpolation (axisAngle, axisAngleMatrix, extractMatrixRotation, interpolate along the geodesic),
+    # rotateNormalizedAxis, the quaternion exp / log / pow / sqrt family, quaternion relational functions, quatLookAt - GlmX04.tla
+    from props import x04
+    x04.run(ctx)
     ctx.rule("rational unit quaternions from every integer 4-tuple with n <= 5 (thorough: n <= 9, samples of n = 10, 11), near-axis quaternions "
              "(1-t^2, 2t, 0, 0)/(1+t^2) t = 2^-1 .. 2^-30 in every position and sign, near-gimbal quaternions qz qy qx whose yaw half angle comes from "
              "the Pythagorean triples with legs a, a+1 (cos(yaw) from 5e-2 down to 1e-15) and float-exact gimbal quaternions moved by 0..20000 ulps; "
